@@ -20,15 +20,23 @@ def main():
     prng = random.Random(12345)   # private PRNG for the injected delays: the global one is the subject of the check
     orig = ZH.z3_solve
 
-    def z3_solve(formulas, timeout_ms=500):
+    def z3_solve(*a, **k):
         stats["z3_calls"] += 1
         if perturb:
             stats["delays"] += 1
             time.sleep(prng.random() * 0.004)
-        r = orig(formulas, timeout_ms)
-        if r[0] == z3.unknown:
+        return orig(*a, **k)
+    # z3_solve retries up to 20 times after an 'unknown' (with a reshuffled query and a new Z3 seed) and reports only the last
+    # answer; other call sites use z3.Solver directly. Count every 'unknown' at the Solver itself.
+    _check = z3.Solver.check
+
+    def check(self, *a, **k):
+        r = _check(self, *a, **k)
+        stats["solver_checks"] = stats.get("solver_checks", 0) + 1
+        if r == z3.unknown:
             stats["z3_unknown"] += 1
         return r
+    z3.Solver.check = check
     for mod in list(sys.modules.values()):
         if mod is not None and getattr(mod, "__name__", "").startswith("isla") and getattr(mod, "z3_solve", None) is orig:
             mod.z3_solve = z3_solve
